@@ -246,7 +246,7 @@ theorem loopIP_canonical (L : Loop) (hL : L.canonical) (hip : L.inPlace = true) 
   congr 1
   apply Vector.ext
   intro i hi
-  simp [ipV, Vector.getElem_ofFn, hi]
+  simp [ipV, Vector.getElem_ofFn]
 
 end LoopIP
 
@@ -364,7 +364,7 @@ theorem ipVV_canonical (L : Loop) (hL : L.canonical) (hip : L.inPlace = true) (h
   · congr 1
     apply Vector.ext
     intro i hi
-    simp [Vector.getElem_ofFn, Vector.getElem?_eq_getElem hi]
+    simp [Vector.getElem_ofFn]
   · intro i hi cur
     simp [rd, ixEval, Vector.getElem?_eq_getElem hi]
 
